@@ -4,7 +4,8 @@
    [d, k, m, at, c, f, v, o, x, same]:  fault (f,v) injected at host command `at`, c = the name of the
    host command the simulated chip really saw at that position, o = outcome class of
    ContactlessFrontend.exchange(), x = exception / value type, same = returned data equals the
-   simulated remote device's answer.
+   simulated remote device's answer (for the operation kinds: o = outcome class of ContactlessFrontend.sense() /
+   listen(), same = the returned target has the documented bit rate and attributes).
    Structural disagreement (unknown case, other host command than Cmds(d,k)[at], recorded cases #
    SliceCases) stops the trace (STUCK).  The property -- o \in Allowed -- is evaluated as the step's
    post-condition; a violation is printed per event under the id "<trace>#<line>" and the walk goes on,
@@ -49,7 +50,10 @@ Struct == StructWhy(Ev) = <<>> /\ (l = 1 /\ S.cover => CoverWhy = <<>>)
 AllowedEv(e) == Allowed(e.d, e.k, e.at, F(e.f, e.v))
 InvWhy(e) ==
   IF e.o \notin AllowedEv(e) THEN <<"inv", <<"OutcomeAllowed">>, e.o, e.x, AllowedEv(e)>>
-  ELSE IF Benign(e.d, e.k, e.at, F(e.f, e.v)) /\ ~e.same THEN <<"inv", <<"DataIntact">>, e.o, e.x, {"same"}>>
+  ELSE IF e.k \notin OpKinds /\ Benign(e.d, e.k, e.at, F(e.f, e.v)) /\ ~e.same
+       THEN <<"inv", <<"DataIntact">>, e.o, e.x, {"same"}>>
+  \* an operation that reports a target reports the documented one (bit rate and every attribute), fault or not
+  ELSE IF e.k \in OpKinds /\ e.o = "Target" /\ ~e.same THEN <<"inv", <<"TargetIntact">>, e.o, e.x, {"same"}>>
   ELSE <<>>
 Judge == IF InvWhy(Ev) # <<>>
          THEN PrintT(<<"STUCK", Traces[tid].id \o "#" \o ToString(l), l, "Exchange", InvWhy(Ev)>>)
